@@ -56,6 +56,13 @@ func init() {
 		ruleWKBTables,
 	)
 
+	register("C02",
+		"Structural necessary conditions of the GeoJSON/BSON round trip: the type-name tables of the JSON and BSON decoders agree with each other, with the GeoJSONType() constants and with the RFC 7946 nesting depths; marshal and unmarshal documents name the same members; Ring/Bound/Collection can never land in \"coordinates\"; member loops complete; NewGeometry/NewFeature total on every kind/shape. Float text round trip, properties/id/foreign members and byte-identical re-marshal are NOT decided (inside encoding/json and the bson driver).",
+		ruleGeoJSONTables,
+		ruleMemberLoops(inPkgs("geojson."), 3, 0),
+		ruleShapeFaults(shapeConfig{label: "geojson constructors", keep: inPkgs("geojson."), floor: 2}),
+	)
+
 	register("C03",
 		"Structural necessary conditions of 'MVT round-trips and marshals deterministically': no map iteration order can reach the output of Marshal (decided for all inputs and all map orders); every collection member is encoded (run-once loops); member loops cover all features/parts. Zigzag arithmetic and ring regrouping are NOT decided.",
 		ruleMapOrder([]string{"encoding/mvt.Marshal", "encoding/mvt.MarshalGzipped"}, []string{"encoding/mvt/vectortile"}, 1),
